@@ -23,6 +23,7 @@ RULE = (
 ASSUMPTIONS = [
     "oracle is the relation itself (no reference model): all runs are the real code on fresh instances",
     "'stopped' is compared between collect/next/fast_forward, not for collect(nexts=n) (an early exit leaves the run unfinished by design)",
+    "the list objects next() yielded are kept and must still equal their as-yielded copies after the run (list(path.next()) is the documented way to gather them)",
 ]
 
 STATE = ("variables", "scan_count", "match_count", "is_valid", "errors", "printouts", "stopped")
@@ -89,6 +90,9 @@ def run_case(case, sb):
     else:
         if A["lines"] != B["lines"]:
             problems.append({"collect_lines": A["lines"], "next_lines": B["lines"]})
+        if B["lines_retained"] != B["lines"]:
+            # list(path.next()) must hold the lines as they were yielded
+            problems.append({"next_lines_as_yielded": B["lines"], "same_objects_after_the_run": B["lines_retained"]})
         for k in STATE:
             if not (A[k] == B[k] == C[k]):
                 problems.append({"field": k, "collect": A[k], "next": B[k], "fast_forward": C[k]})
